@@ -405,6 +405,12 @@ pub fn gen_plan(rng: &mut Rng, k: &HistKnobs) -> HistPlan {
             if rng.chance(2, 3) {
                 ops.push(Op::FillTags);
             }
+            if rng.chance(1, 2) {
+                // the stale-state probe: an update (possibly a failing one) directly followed by
+                // fill_tags, with no predict in between
+                ops.push(gen_update(rng, k, false, &mut recent));
+                ops.push(Op::FillTags);
+            }
         }
         while ops.len() < n_ops {
             match rng.weighted(&[w_update, w_ctor, w_reset, w_predict, w_fill, w_filter, w_setb, w_sett]) {
